@@ -60,8 +60,12 @@ def spacetime_batch_obligations(G):
                 def go(cart=cart, d=d, with_border=with_border, equal=equal):
                     from .. import alg as _alg
                     rt, rx, rb = ("Bt", "Bx", "Bb") if cart else ("B", "B", "B")
-                    for nm in ("Bt", "Bx", "Bb"):
-                        _alg.AXIS_EXTENT.pop(nm, None)
+                    def forget():
+                        # declared extents and every extent DERIVED from them (names such as '(Bt*Bx)' remember the polynomial they
+                        # were computed from: stale after the declaration changes)
+                        for nm in [k_ for k_ in _alg.AXIS_EXTENT if any(b_ in k_ for b_ in ("Bt", "Bx", "Bb"))]:
+                            del _alg.AXIS_EXTENT[nm]
+                    forget()
                     if equal:
                         # three different tables that happen to have the same number of rows: still the full product
                         for nm in ("Bt", "Bx", "Bb"):
@@ -69,8 +73,7 @@ def spacetime_batch_obligations(G):
                     try:
                         return go_(cart, d, with_border, rt, rx, rb, equal)
                     finally:
-                        for nm in ("Bt", "Bx", "Bb"):
-                            _alg.AXIS_EXTENT.pop(nm, None)
+                        forget()
 
                 def go_(cart, d, with_border, rt, rx, rb, equal):
                     tvec = AT((rt,), np.array(T(rt), dtype=object))
